@@ -66,7 +66,7 @@ func registeredConstraints(ctx *core.Ctx, r *core.Report) map[*types.Named]types
 }
 
 func C07(ctx *core.Ctx, r *core.Report) {
-	r.Explanation = "How parameter text becomes constraints, decided on all paths: every error of a parameter parser flows into the error BuildConstraints/Constrain/Find return and every parser can fail; every recognised key installs a constraint under its own id; a constraint that keeps state in its receiver has a pointer receiver and is registered by pointer; every parameter constraint lets navigation requests through first; no registered constraint type has a method that merely resembles a constraint interface method; no constraint check can reach an edit. Not decided: that the projection is the defined one (depth counting, field-path matching, window bounds, intersections)."
+	r.Explanation = "How parameter text becomes constraints, decided on all paths: every error of a parameter parser flows into the error BuildConstraints/Constrain/Find return and every parser can fail; every recognised key installs a constraint under its own id; a constraint that keeps state in its receiver has a pointer receiver and is registered by pointer; every parameter constraint lets navigation requests through first; no registered constraint type has a method that merely resembles a constraint interface method; no constraint check can reach an edit. The counting constraint (fc.max-node-count) counts in the container post-constraint, i.e. containers that exist and passed every filter, and has the highest priority number among the post-constraints. Not decided: that the projection is the defined one (depth counting, field-path matching, window bounds, intersections)."
 	regs := registeredConstraints(ctx, r)
 	r.Count("registered_constraint_types", len(regs))
 	if len(regs) < 8 {
